@@ -29,6 +29,15 @@ CLAIMED = {
     "C09": ("property-based testing: trace validation on a reference FIFO queue + L == SC + leak/deadlock/race verdicts",
             "Bounded generated-program exploration with 1-3 senders and a receiver: exactly-once in-order delivery, blocking recv, try_recv exactness, `Messages leaked` iff messages remain, send->recv happens-before (cells handed over through messages).",
             "Trusts R-SC; F2 (try_recv never races a send) and F2b (receiver drop not a scheduling point) attributed by class.", "4/C09"),
+    "C04": ("property-based differential testing: race verdicts of generated programs vs reference happens-before (R-AX for atomic-synchronised, R-SC vector clocks for primitive-synchronised programs)",
+            "Bounded generated-program exploration: programs with conflicting non-atomic accesses and a synchronisation idiom between them, in correct and deliberately weakened variants; the run must report a causality violation iff the reference finds a consistent execution with unordered conflicting accesses (must/may bracket over admissible readings).",
+            "Trusts R-AX / R-SC happens-before; awaited flags are written once; findings F5c, F11, F2b attributed by class.", "4/C04"),
+    "C14": ("property-based testing with an instrumentation hook: reference depth-first step function + distinctness of decision paths",
+            "For generated programs of all families the iteration hook reports every decision path; an independent reference computes the deepest open branch and checks that loom's next prefix is its legal successor, that exhaustion coincides with the end of the run, that no decision sequence repeats and that paths increase in depth-first rank order.",
+            "Trusts the hook snapshot (feature `verif`); runs longer than the iteration cap are checked on their prefix.", "4/C14"),
+    "C15": ("property-based metamorphic testing across preemption bounds + independent preemption count by trace replay on R-SC",
+            "Each generated program is run unbounded and with bounds n, n+1 and >= #operations: per-execution preemption count (independent replay), subset, monotonicity and large-bound equality relations are checked.",
+            "The unbounded run is the yardstick for subset relations (findings F2b, F13 concern its completeness and are attributed by class).", "4/C15"),
     "C12": ("property-based differential testing against std atomics (random op sequences + exhaustive 8-bit operand sub-domain)",
             "Generated single-threaded operation sequences on every loom atomic type are executed on the loom atomic inside loom::model and on the std atomic; all results and final contents must agree. Exhaustive for u8/i8 binary RMWs over all 256x256 operand pairs; sampled (boundary-biased) for wider types.",
             "std atomics are the reference; compare_exchange_weak is compared with the strong std operation (loom documents no spurious failure).", "4/C12"),
